@@ -192,6 +192,12 @@ def analyse_program_goals(text, goals, N, seed=0, settings=None, force_cyclic=Fa
         except CpuTimeout:
             stats["refusals"]["timeout@normalize"] = 1
             res["status"] = "refusal"
+            if refusal_is_violation:
+                # normalisation of the programs of these corpora takes < 0.5 CPU seconds (measured maximum over the thorough
+                # corpus 0.3 s); no result after NORM_CPU (100 x that) is non-termination of a pass, i.e. the program is not accepted
+                res["status"] = "violation"
+                res["violations"].append({"sub": "normalize", "detail": {"refused_with": "no result after %d CPU seconds" % NORM_CPU,
+                                                                         "program": text}})
             return res
         except Exception as e:
             stats["refusals"][exc_name(e)] = 1
